@@ -4,7 +4,7 @@
    file of its own so that coq/C07, which imports C06.Properties read-only, is not rebuilt, and so that the two files'
    Print Assumptions runs proceed in parallel. *)
 From Coq Require Import ZArith.
-From C06 Require Import Model ModelNative ProofsBase ProofsSigned ProofsNative ProofsNative2 ProofsNative3 ProofsNativeEx ModelCount ProofsCount.
+From C06 Require Import Model ModelNative ProofsBase ProofsSigned ProofsNative ProofsNative2 ProofsNative3 ProofsNativeEx ModelCount ProofsCount ProofsDomain.
 Local Open Scope Z_scope.
 
 Theorem C06_compare_native_exact : Cmp_native_exact. Proof. exact cmp_native_exact. Qed.
@@ -47,3 +47,5 @@ Theorem C06_shift_count_conversions_exact : Shift_count_conversions_exact. Proof
 Print Assumptions C06_shift_count_conversions_exact.
 Theorem C06_addmul_word_exact : Addmul_word_exact.  Proof. exact addmul_word_exact. Qed.
 Print Assumptions C06_addmul_word_exact.
+Theorem C06_signed_div_r_documented_domain : Sdiv_r_documented_domain. Proof. exact sdiv_r_documented_domain. Qed.
+Print Assumptions C06_signed_div_r_documented_domain.
